@@ -672,14 +672,7 @@ def call_opaque_method(interp, o, name, m, args, kwargs):
         st.assume(ok)
     if m.event is not None:
         st.emit(m.event, o, tuple(args))
-    if m.may_raise:
-        k = st.choose(1 + len(m.may_raise))
-        if k > 0:
-            factory = m.may_raise[k - 1]
-            exc = factory(interp, o) if isinstance(factory, types.FunctionType) else factory()
-            if m.event is not None:
-                st.emit(m.event + ':raised', o, exc)
-            raise PyRaise(exc)
+    key = None
     if m.pure:
         flat = []
         for a in args:
@@ -690,8 +683,23 @@ def call_opaque_method(interp, o, name, m, args, kwargs):
         args = flat
         key = ('__call__', name, tuple(z3.simplify(to_z3(a)).sexpr() if isinstance(a, (Sym, int, str, bool))
                                         and not isinstance(a, (SOpt, SChoice, SList)) else id(a) for a in args))
+        # a pure method is a function of (object, arguments): the outcome of an earlier call -- value or
+        # exception -- is the outcome of this one
         if key in o._pv_attrs:
             return o._pv_attrs[key]
+        if ('__raised__', key) in o._pv_attrs:
+            raise PyRaise(o._pv_attrs[('__raised__', key)])
+    if m.may_raise:
+        k = st.choose(1 + len(m.may_raise))
+        if k > 0:
+            factory = m.may_raise[k - 1]
+            exc = factory(interp, o) if isinstance(factory, types.FunctionType) else factory()
+            if m.event is not None:
+                st.emit(m.event + ':raised', o, exc)
+            if key is not None:
+                o._pv_attrs[('__raised__', key)] = exc
+            raise PyRaise(exc)
+    if m.pure:
         if all(isinstance(a, (SInt, SBool, SStr, int, str, bool)) for a in args) and \
                 isinstance(m.returns, (_Int, _Bool, _Str)):
             sorts = [x.sort() for x in o._pv_index] + [to_z3(a).sort() for a in args]
